@@ -103,6 +103,30 @@ func (f *Frame) call(site ssa.Instruction, common *ssa.CallCommon, pos token.Pos
 	if resT.Len() == 1 {
 		rt = resT.At(0).Type()
 	}
+	// the address of a package-level variable handed to a callee lets the callee
+	// write it: under a contract that preserves that variable this is a write
+	if f.e.con != nil && f.e.con.ModAll && len(f.e.con.Preserves) > 0 {
+		vals := append([]ssa.Value{}, common.Args...)
+		if !common.IsInvoke() {
+			vals = append(vals, common.Value)
+		}
+		for _, a := range vals {
+			if g, ok := a.(*ssa.Global); ok {
+				var pkgp string
+				if g.Pkg != nil {
+					pkgp = g.Pkg.Pkg.Path()
+				}
+				hv := "G!" + pkgp + "." + g.Name()
+				if matchPreserves(f.e.con.Preserves, hv) {
+					name := g.Name()
+					if !f.top {
+						name = "in:" + f.e.P.fnDisplay(f.fn) + ":" + name
+					}
+					f.e.addObl("globaladdr", name, f.curReach, "false", pos, "the address of a preserved package-level variable escapes to a callee", f.props())
+				}
+			}
+		}
+	}
 	f.curArgTypes = nil
 	f.curResTypes = common.Signature().Results()
 	if common.IsInvoke() {
@@ -139,7 +163,12 @@ func (f *Frame) call(site ssa.Instruction, common *ssa.CallCommon, pos token.Pos
 		return out
 	}
 	kind, con := e.decideCall(callee, f.depth)
-	if _, isDefer := site.(*ssa.Defer); isDefer && kind == ckContract && con.Handler {
+	if _, isDefer := site.(*ssa.Defer); !isDefer && !f.inPanicSim {
+		if mayPanic(e.P, callee, con) {
+			f.panicExitCheck(siteKey, pos)
+		}
+	}
+	if _, isDefer := site.(*ssa.Defer); isDefer && kind == ckContract && con.Handler && !f.inPanicSim {
 		// a recover handler run on the normal return path sees recover() == nil:
 		// encode its body (not its contract, which describes the panicking case)
 		kind = ckInline
@@ -622,7 +651,9 @@ func (f *Frame) builtin(b *ssa.Builtin, common *ssa.CallCommon, args []Val, site
 		// on the normal path recover() returns nil; a function verified as a deferred
 		// handler sees an arbitrary recovered value
 		if f.top && e.con != nil && e.con.Handler {
-			return f.havocVal(types.NewInterfaceType(nil, nil), "recovered")
+			v := f.havocVal(types.NewInterfaceType(nil, nil), "recovered")
+			f.recoveredVal = v.T
+			return v
 		}
 		return Val{T: "nil_iface"}
 	case "print", "println":
@@ -709,11 +740,14 @@ func (f *Frame) ghostHooks(siteKey string, args []Val, res Val, after bool) {
 
 func (f *Frame) ghostHooksNamed(siteKey string, args []Val, res Val, after bool, argNames []string) {
 	e := f.e
-	if !f.top || e.con == nil {
+	if e.con == nil {
 		return
 	}
-	stmts := e.con.AtCalls[siteKey]
-	// wildcard: callee#* applies to every call of that callee
+	var stmts []GhostStmt
+	if f.top {
+		stmts = e.con.AtCalls[siteKey]
+	}
+	// wildcard: callee#* applies to every call of that callee, also inside inlined helpers
 	if i := strings.LastIndex(siteKey, "#"); i >= 0 {
 		stmts = append(append([]GhostStmt{}, stmts...), e.con.AtCalls[siteKey[:i]+"#*"]...)
 	}
@@ -1029,4 +1063,91 @@ func (e *Enc) contractWrites(con *Contract, callee *ssa.Function, sig *types.Sig
 			set[v] = true
 		}
 	}
+}
+
+// mayPanic: can a call to callee end in a panic that propagates to the caller?
+// Repo functions may (errorf-style errors are panics) unless their contract
+// says nopanic or they are trusted/extern primitives; externs are assumed not to.
+func mayPanic(p *Prog, callee *ssa.Function, con *Contract) bool {
+	if !p.inRepo(callee) {
+		return false
+	}
+	if con != nil && (!con.MayPanic || con.Trusted || con.Extern) {
+		return false
+	}
+	return true
+}
+
+// panicExitCheck: if a panic propagates from this point, the function's
+// deferred calls run (in reverse order); afterwards every `panicensures`
+// clause of the contract must hold. Deferred calls are applied through their
+// contracts; a recover handler contributes its `onpanic` guarantees.
+func (f *Frame) panicExitCheck(siteKey string, pos token.Pos) {
+	e := f.e
+	if !f.top || e.con == nil || len(e.con.PanicEnsures) == 0 || e.dry {
+		return
+	}
+	saved := f.heap
+	f.heap = saved.clone()
+	f.inPanicSim = true
+	mark := e.body.Len()
+	_ = mark
+	for i := len(f.defers) - 1; i >= 0; i-- {
+		d := f.defers[i]
+		var callee *ssa.Function
+		switch c := d.Call.Value.(type) {
+		case *ssa.Function:
+			callee = c
+		case *ssa.MakeClosure:
+			callee = c.Fn.(*ssa.Function)
+		}
+		if callee == nil {
+			continue
+		}
+		con := e.P.contractFor(callee)
+		var args []Val
+		for _, a := range d.Call.Args {
+			args = append(args, f.get(a))
+		}
+		if con != nil && con.Handler {
+			// the handler runs with a non-nil recovered value: assume its onpanic guarantees
+			pkg := callee.Pkg.Pkg
+			mk := func(h *Heap) *SpecEnv {
+				env := &SpecEnv{e: e, f: f, heap: h, pkg: pkg, names: map[string]specVal{}}
+				for k, prm := range callee.Params {
+					if k < len(args) {
+						env.names[prm.Name()] = specVal{v: args[k], t: prm.Type()}
+					}
+				}
+				return env
+			}
+			old := f.heap.clone()
+			f.havocAll()
+			post := mk(f.heap)
+			post.old = mk(old)
+			for _, c := range con.OnPanic {
+				if t, err := post.evalBool(c.Expr); err == nil {
+					e.assumeAt(f.curReach, t)
+				}
+			}
+			continue
+		}
+		if con != nil {
+			rt := types.Type(callee.Signature.Results())
+			f.applyContract(con, callee, args, rt, siteKey+"!defer", pos)
+			continue
+		}
+		f.havocAll()
+	}
+	env := f.specEnv(f.heap, nil, nil)
+	for i, c := range e.con.PanicEnsures {
+		t, err := env.evalBool(c.Expr)
+		if err != nil {
+			e.unsupp("panicensures: " + err.Error())
+			continue
+		}
+		e.addObl("panic.post", siteKey+":"+clauseLabel(c, i), f.curReach, t, pos, c.Src+" (if this call panics, after the deferred calls ran)", clauseProps(c, f.props()))
+	}
+	f.heap = saved
+	f.inPanicSim = false
 }
